@@ -256,3 +256,16 @@ def known_leaf(c, r):
     if c["field"] is None and c["value"]["t"] == "str" and c["value"].get("cased") and c["cfg"]["family"] == "vb":
         return "C01-unbound-cased-dropped"
     return None
+
+
+def py_oracle_leaf(c, r):
+    """the negated-template context leaves no trace on the backend class: the same leaf and sibling leaves of every
+    operator shape render after it as before it"""
+    if "exc" in r or c["field"] is None:
+        return None
+    if r.get("r2") != r.get("r"):
+        return "the leaf renders differently after the negated-template context: %r then %r" % (r.get("r"), r.get("r2"))
+    if r.get("sib0") != r.get("sib1"):
+        d = [(a, b) for a, b in zip(r["sib0"], r["sib1"]) if a != b]
+        return "sibling leaves render differently after the negated-template context: %r" % (d[:2],)
+    return None
